@@ -72,4 +72,30 @@ __attribute__((noinline)) void h_h4_batch(void) {
   __verif_check((got == 0) == (d0 == t0));
   __verif_check(done_[1 - src] == o0 && !lk[src]._lock.value());
 }
+// H4b (A-seq): two threads ask the SAME source for a batch concurrently: together they never receive more than what is left,
+// the done counter is exact at quiescence, the source lock is released
+#ifndef H4B_MAX
+#define H4B_MAX 0xffUL
+#endif
+size_t h4b_mx[2], h4b_got[2], h4b_t0v, h4b_d0v;
+__attribute__((noinline)) void h4b_setup(void) {
+  DistributedPhotonSource< DensitySubGrid > &d = g_d.d;
+  *reinterpret_cast<size_t **>(&d._total_number_of_photons) = tot; *(reinterpret_cast<size_t **>(&d._total_number_of_photons) + 1) = tot + 2;
+  *reinterpret_cast<size_t **>(&d._number_done) = done_; *(reinterpret_cast<size_t **>(&d._number_done) + 1) = done_ + 2;
+  *reinterpret_cast<size_t **>(&d._subgrids) = sgs; *(reinterpret_cast<size_t **>(&d._subgrids) + 1) = sgs + 2;
+  lockvec.b = lk; lockvec.e = lk + 2; lockvec.c = lk + 2; d._locks = reinterpret_cast<std::vector< ThreadLock > *>(&lockvec);
+  for (int k = 0; k < 2; ++k) { tot[k] = nondet_ulong(); done_[k] = nondet_ulong(); __CPROVER_assume(done_[k] <= tot[k] && tot[k] <= H4B_MAX); lk[k]._lock.set(false);
+    h4b_mx[k] = nondet_ulong(); __CPROVER_assume(h4b_mx[k] > 0 && h4b_mx[k] <= H4B_MAX); h4b_got[k] = 0; }
+  h4b_t0v = tot[0]; h4b_d0v = done_[0];
+}
+__attribute__((noinline)) void h4b_t0(void) { h4b_got[0] = g_d.d.get_photon_batch(0, h4b_mx[0]); }
+__attribute__((noinline)) void h4b_t1(void) { h4b_got[1] = g_d.d.get_photon_batch(0, h4b_mx[1]); }
+__attribute__((noinline)) void h4b_post(void) {
+  const size_t rem = h4b_t0v - h4b_d0v, want = h4b_mx[0] + h4b_mx[1];
+  __verif_check(h4b_got[0] <= h4b_mx[0] && h4b_got[1] <= h4b_mx[1]);
+  __verif_check(h4b_got[0] + h4b_got[1] == (want < rem ? want : rem));          // nothing lost, nothing handed out twice
+  __verif_check(done_[0] == h4b_d0v + h4b_got[0] + h4b_got[1] && done_[0] <= h4b_t0v);
+  __verif_check(!lk[0]._lock.value());
+  __verif_check(tot[1] == tot[1] && !lk[1]._lock.value());
+}
 }
